@@ -788,6 +788,23 @@ pub fn validate_abnf(abnf: &str, target: &str) -> Result<(), String> {
     // needs to end with a newline
     abnf.push('\n');
 
+    // abnf_to_pest has no translation for prose values (`<...>`) and hits
+    // `unimplemented!()` when rendering one. In ABNF a `<` can otherwise only
+    // occur inside a quoted string or a comment
+    let mut in_string = false;
+    let mut in_comment = false;
+    for c in abnf.chars() {
+      match c {
+        '\n' => in_comment = false,
+        '"' if !in_comment => in_string = !in_string,
+        ';' if !in_string => in_comment = true,
+        '<' if !in_string && !in_comment => {
+          return Err("ABNF prose values (<...>) are not supported".to_string())
+        }
+        _ => (),
+      }
+    }
+
     let rules = abnf_to_pest::parse_abnf(&abnf).map_err(|e| e.to_string())?;
     let mut w = Vec::new();
     abnf_to_pest::render_rules_to_pest(rules)
